@@ -154,6 +154,14 @@ F5 ==
              <<>>) :
         tn \in {<<>>, ntt}, pks \in {<<>>, <<ny, nw>>}, ck \in {<<>>, <<<<ny, nw>>>>}, b3 \in {0, 1, 2}}
     \cup
+    \* a subclass declares a composite key / index over an attribute of its base (composite_key(B.x, y))
+    {Diagram("inheritance-key",
+             <<Ent(nB, <<[Attr(nx, kd, ty) EXCEPT !.unique = u, !.index = ix]>>),
+               [Ent(nS, <<Attr(ny, "Optional", "str")>>) EXCEPT !.base = 1, !.ckeys = ck, !.cidx = ci]>>,
+             <<>>) :
+        kd \in {"Required", "Optional"}, ty \in {"int", "str"}, u \in BOOLEAN, ix \in {NoIdx, [k |-> "true", n |-> <<>>]},
+        ck \in {<<>>, <<<<nx, ny>>>>}, ci \in {<<>>, <<<<nx, ny>>>>, <<<<ny, nx>>>>}}
+    \cup
     \* relationships from and to a subclass
     {Diagram("inheritance-rel",
              <<WithPk(Ent(nB, <<>>), pm), [Ent(nS, <<>>) EXCEPT !.base = 1], Ent(nC, <<>>)>>,
@@ -173,6 +181,14 @@ F6 ==
         e1 \in {nAb}, e2 \in {nAB, nB}, t1 \in (IF Thorough THEN {<<>>, ntt} ELSE {ntt}), t2 \in {<<>>, nTT, ntt},
         n2 \in {nb, nUA}, col \in {<<>>, nUA, na},
         i1 \in (IF Thorough THEN {NoIdx, [k |-> "name", n |-> nix]} ELSE {[k |-> "name", n |-> nix]}), i2 \in {NoIdx, [k |-> "name", n |-> nIX], [k |-> "name", n |-> nix]}}
+    \cup
+    \* two unrelated entities on one table: never mappable, also when their columns (and primary keys) are disjoint
+    {Diagram("shared-table",
+             <<[Ent(nA, PkAttrs(pm1) \o <<Attr(na, "Required", "int")>>) EXCEPT !.table = tp[1]],
+               [Ent(nB, (IF pm2 = "other" THEN <<Attr(np, "PrimaryKey", "int")>> ELSE PkAttrs(pm2)) \o <<Attr(nb, "Required", "str")>>)
+                EXCEPT !.table = tp[2]]>>, <<>>) :
+        pm1 \in {"implicit", "auto"}, pm2 \in {"implicit", "auto", "other"},
+        tp \in {<<ntt, ntt>>, <<<<>>, nA>>, <<nB, <<>>>>, <<ntt, nuu>>, <<<<>>, <<>>>>}}
     \cup
     {Diagram("names-long",
              <<Ent(Long("P", n, "a"), <<[Attr(Long("v", m, "a"), "Required", "int") EXCEPT !.index = ix, !.unique = u],
